@@ -103,7 +103,7 @@ class _DropStream(httpx.AsyncByteStream):
                 raise httpx.ReadError('vf: connection lost while reading the response')
             yield self.data[i:i + self.chunk]
             n += 1
-        if self.drop_after is not None and n >= self.drop_after and self.drop_after * self.chunk >= len(self.data):
+        if self.drop_after is not None:
             raise httpx.ReadError('vf: connection lost before the end of the response')
 
 
@@ -179,7 +179,9 @@ class FakeService(httpx.AsyncBaseTransport):
         resp = await self.serve(op, request, body, rec)
         rec['status'] = resp.status_code
         if fault is not None and fault['kind'] == 'drop-response':
-            data = b''.join([c async for c in resp.stream]) if not request.method == 'HEAD' else b''
+            if request.method == 'HEAD':
+                raise httpx.ReadError('vf: connection lost while reading the response')
+            data = b''.join([c async for c in resp.stream])
             return self._respond(request, resp.status_code, data, dict(resp.headers), drop_after=fault.get('after', 0))
         return resp
 
